@@ -5,10 +5,13 @@ from concurrent.futures import ThreadPoolExecutor
 VERIF = os.path.dirname(os.path.dirname(os.path.abspath(__file__)))
 REPO = os.environ.get("VERIF_REPO", "/repo")
 SPEC = os.path.join(VERIF, "spec")
-HARNESS = os.path.join(VERIF, "harness")
+# the registered checks always use /verif/harness (path dependency on /repo); the overrides exist for
+# the development-time seeded-change runner (tools/seedtest.py), which points a private harness copy at
+# a scratch worktree so that /repo is not disturbed
+HARNESS = os.environ.get("VERIF_HARNESS", os.path.join(VERIF, "harness"))
 BIN = os.path.join(HARNESS, "target", "debug")
-EVIDENCE = os.path.join(VERIF, "evidence")
-REPLAYS = os.path.join(VERIF, "replays")
+EVIDENCE = os.environ.get("VERIF_EVIDENCE", os.path.join(VERIF, "evidence"))
+REPLAYS = os.environ.get("VERIF_REPLAYS", os.path.join(VERIF, "replays"))
 TLA_CP = "/opt/veriftools/tla/tla2tools.jar:/opt/veriftools/tla/CommunityModules-deps.jar"
 NCPU = os.cpu_count() or 4
 
@@ -165,6 +168,46 @@ def judge(module, records, shards=None, timeout=900, xmx="3g", extra_constants="
         trans += res.generated
         for f in res.printed("FAIL"):
             fails.append((chunk[f["i"] - 1], f["why"]))
+    return fails, states, trans
+
+
+def judge_traces(module, behaviours, shards=None, timeout=900, xmx="3g"):
+    """Like judge(), for stateful traces: each behaviour (a list of records starting with a reset record) is
+    kept whole inside one shard. Returns (failures [(behaviour index, step index, record, why)], states, transitions)."""
+    if not behaviours:
+        return [], 0, 0
+    shards = shards or max(1, min(NCPU // 2, (len(behaviours) + 19) // 20))
+    tmp = tempfile.mkdtemp(prefix="judge-")
+    jobs, maps = [], []
+    for sh in range(shards):
+        mine = list(range(sh, len(behaviours), shards))
+        if not mine:
+            continue
+        path = os.path.join(tmp, "t%d.ndjson" % sh)
+        index = []
+        with open(path, "w") as f:
+            for bi in mine:
+                for si, r in enumerate(behaviours[bi]):
+                    f.write(json.dumps(r, ensure_ascii=True) + "\n")
+                    index.append((bi, si))
+        maps.append(index)
+        cfg = "SPECIFICATION Spec\nINVARIANT Done\nCHECK_DEADLOCK FALSE\n"
+        jobs.append(dict(module="trace/" + module, cfg_text=cfg, workers=1, timeout=timeout,
+                         env={"TRACE": path}, xmx=xmx, xss="512m"))
+    results = tlc_parallel(jobs)
+    shutil.rmtree(tmp, ignore_errors=True)
+    fails, states, trans = [], 0, 0
+    for index, res in zip(maps, results):
+        done = res.printed_raw("DONE")
+        m = re.search(r'<<"DONE", (\d+)>>', done[-1]) if done else None
+        if not res.ok or not m or int(m.group(1)) != len(index):
+            sys.stderr.write(res.out[-6000:])
+            raise ToolError("trace judge %s did not consume its whole trace" % module)
+        states += res.distinct
+        trans += res.generated
+        for f in res.printed("FAIL"):
+            bi, si = index[f["i"] - 1]
+            fails.append((bi, si, behaviours[bi][si], f["why"]))
     return fails, states, trans
 
 
